@@ -20,6 +20,7 @@
 -/
 import Driver.Util
 import SyModel.Compress.Sparse
+import SyModel.Generated.Consts
 open SyModel SyModel.Compress
 
 namespace Driver.Compress
@@ -112,6 +113,21 @@ def handle (toks : List String) : Option String :=
     match unhex stdin, parseOptNat mt, parseDz dz with
     | some stdin, some mt, some dz => showRemote (receiveFile (oracleC [] dz) stdin mt)
     | _, _, _ => "bad-op"
+  | ["compress.recvover", prior, stdin, mt, dz] =>
+    -- the same over an existing destination (`-` = nothing there), with the open mode the source has now
+    let prior' : Option (Option Bytes) := if prior == "-" then some none else (unhex prior).map some
+    match prior', unhex stdin, parseOptNat mt, parseDz dz with
+    | some prior, some stdin, some mt, some dz =>
+      showRemote (receiveFileOver (OpenMode.ofTruncates SyModel.Generated.HELPER_RECEIVE_FILE_TRUNCATES)
+        (oracleC [] dz) prior stdin mt)
+    | _, _, _, _ => "bad-op"
+  | ["sparse.recvover", prior, total, regs, stdin, mt] =>
+    let prior' : Option (Option Bytes) := if prior == "-" then some none else (unhex prior).map some
+    match prior', total.toNat?, unhex regs, unhex stdin, parseOptNat mt with
+    | some prior, some total, some regs, some stdin, some mt =>
+      showRemote (receiveSparseFileOver (OpenMode.ofTruncates SyModel.Generated.HELPER_SPARSE_TRUNCATES)
+        prior total regs stdin mt)
+    | _, _, _, _, _ => "bad-op"
   | ["sparse.issparse", which, alloc, size] =>
     match alloc.toNat?, size.toNat? with
     | some a, some s =>
